@@ -350,6 +350,53 @@ func TestVerifFailFastRace(t *testing.T) {
 	}
 }
 
+// C07 (no data races) / C06: several digests missing at once.  Every back-end worker that finds a
+// miss reports it to the requesting goroutine; what they share must be synchronised.  This run is
+// always built with the race detector (bin/props.py: race="always"), whose report — two stacks — is
+// the replay.
+func TestVerifFailFastManyMisses(t *testing.T) {
+	rec := vNewRecorder(t, "ffrace")
+	defer rec.Close(t)
+	rec.Set("rule", "fail-fast dependency walk over 2..40 digests of which 2..all are absent locally and in the back end (answers after 100 us), under the race detector; the answer must be 'missing'")
+	rng := vNewRand("ffrace")
+	dir := vTempDir(t)
+	defer os.RemoveAll(dir)
+	// the delay is fixed before the cache starts: workers of an earlier, cancelled walk may still be reading it
+	px := &vMapProxy{has: map[string]bool{}, osize: map[string]int64{}, mode: map[string]string{}, delay: 100 * time.Microsecond}
+	c := vNewDisk(t, dir, 1<<30, WithProxyBackend(px))
+	rounds := vScale(150, 1500)
+	wrong := 0
+	for r := 0; r < rounds; r++ {
+		rec.Case()
+		n := 2 + rng.Intn(39)
+		absent := 2 + rng.Intn(n-1)
+		var blobs []*pb.Digest
+		for i := 0; i < n; i++ {
+			b := []byte(fmt.Sprintf("ffrace-%d-%d", r, i))
+			h := vHash(b)
+			if i >= absent {
+				px.mu.Lock()
+				px.has[h] = true
+				px.osize[h] = int64(len(b))
+				px.mu.Unlock()
+			}
+			blobs = append(blobs, &pb.Digest{Hash: h, SizeBytes: int64(len(b))})
+		}
+		for i := len(blobs) - 1; i > 0; i-- {
+			j := rng.Intn(i + 1)
+			blobs[i], blobs[j] = blobs[j], blobs[i]
+		}
+		err := c.findMissingCasBlobsInternal(context.Background(), blobs, true)
+		rec.Count(fmt.Sprintf("absent=%d", min(absent, 8)))
+		rec.Distinct(fmt.Sprintf("%d/%d", absent, n))
+		if !errors.Is(err, errMissingBlob) {
+			wrong++
+			rec.Violation("C06", "fm.failfast-manymisses", fmt.Sprintf("fail-fast presence check over %d digests of which %d are absent everywhere answered %v", n, absent, err), map[string]int{"n": n, "absent": absent})
+		}
+	}
+	rec.Note(fmt.Sprintf("rounds=%d wrong=%d", rounds, wrong))
+}
+
 // vParkCtx is a request context whose Done() is nil (never cancelled).  context.WithCancel(child)
 // consults the parent's Done() once when the child is made and once more inside the child's
 // cancel(), after the child's own done channel was closed: the second call parks the goroutine that
